@@ -114,7 +114,7 @@ type genEnv struct {
 }
 
 var valueKinds = []string{"zero", "one", "0x7f", "0x80", "0xff", "max", "max-1", "signbit", "maxpos", "filesize", "filesize+1", "filesize-1",
-	"self", "other", "other+8", "orig+1", "orig-1", "orig*2", "orig<<8"}
+	"self", "other", "other+8", "orig+1", "orig-1", "orig*2", "orig<<8", "small", "rand"}
 
 func mix64(x uint64) uint64 {
 	x += 0x9E3779B97F4A7C15
@@ -139,19 +139,53 @@ func pickOf[T any](t *rapid.T, label string, xs []T) T {
 	return xs[uni(t, label, 0, len(xs)-1)]
 }
 
-func pickStruct(t *rapid.T, b *Base) (Struct, bool) {
-	if len(b.kinds) == 0 {
-		return Struct{}, false
+// hot structure kinds get four times the weight of the others when the mutator picks a target
+var hotKinds = map[string]bool{"msg:dataspace": true, "msg:datatype": true, "msg:layout": true, "msg:filter": true, "msg:attribute": true,
+	"msg:continuation": true, "msg:link": true, "msg:symtab": true, "msg:attrinfo": true, "msg:linkinfo": true, "OHDR": true, "OHv1": true,
+	"TREE": true, "SNOD": true, "HEAP": true, "GCOL": true, "FRHP": true, "BTHD": true, "BTLF": true, "FHDB": true, "OCHK": true}
+
+func (b *Base) weightedKinds() []string { return b.wkinds }
+
+func (b *Base) buildWeighted() {
+	b.wkinds = nil
+	for _, k := range b.kinds {
+		n := 1
+		if hotKinds[k] {
+			n = 4
+		}
+		for i := 0; i < n; i++ {
+			b.wkinds = append(b.wkinds, k)
+		}
 	}
-	k := pickOf(t, "skind", b.kinds)
-	ix := b.byKind[k]
-	return b.Structs[ix[uni(t, "sidx", 0, len(ix)-1)]], true
 }
 
-func genField(t *rapid.T, b *Base) Mut {
-	st, ok := pickStruct(t, b)
+// pickStruct picks a target structure: kind first (weighted), then an instance. near >= 0 restricts the choice to the
+// neighbourhood of structure index near (correlated corruptions of one object).
+func pickStruct(t *rapid.T, b *Base, near int) (Struct, int, bool) {
+	if len(b.kinds) == 0 {
+		return Struct{}, -1, false
+	}
+	if near >= 0 {
+		lo, hi := near-6, near+6
+		if lo < 0 {
+			lo = 0
+		}
+		if hi > len(b.Structs)-1 {
+			hi = len(b.Structs) - 1
+		}
+		i := uni(t, "snear", lo, hi)
+		return b.Structs[i], i, true
+	}
+	k := pickOf(t, "skind", b.weightedKinds())
+	ix := b.byKind[k]
+	i := ix[uni(t, "sidx", 0, len(ix)-1)]
+	return b.Structs[i], i, true
+}
+
+func genField(t *rapid.T, b *Base, near int) (Mut, int) {
+	st, idx, ok := pickStruct(t, b, near)
 	if !ok {
-		return genRandom(t, b)
+		return genRandom(t, b), -1
 	}
 	lo, hi := 0, 63
 	switch {
@@ -164,6 +198,11 @@ func genField(t *rapid.T, b *Base) Mut {
 		hi = 15
 	case strings.HasPrefix(st.Kind, "SB"):
 		lo, hi = 8, st.Len-1
+	case st.Kind == "TREE" || st.Kind == "SNOD" || st.Kind == "BTLF" || st.Kind == "BTIN" || st.Kind == "FHDB" || st.Kind == "FHIB" || st.Kind == "GCOL" || st.Kind == "FRHP" || st.Kind == "HEAP":
+		lo = 4
+		if uni(t, "deep", 0, 9) < 3 {
+			lo, hi = 64, 320 // keys, children, entries, heap objects further inside the block
+		}
 	default:
 		lo = 4
 	}
@@ -209,8 +248,12 @@ func genField(t *rapid.T, b *Base) Mut {
 		v = fs - 1
 	case "self":
 		v = uint64(st.Off)
+	case "small":
+		v = uint64(uni(t, "small", 0, 16))
+	case "rand":
+		v = rapid.Uint64().Draw(t, "rand")
 	case "other", "other+8":
-		if o, ok := pickStruct(t, b); ok {
+		if o, _, ok := pickStruct(t, b, -1); ok {
 			v = uint64(o.Off)
 		}
 		if vk == "other+8" {
@@ -226,7 +269,7 @@ func genField(t *rapid.T, b *Base) Mut {
 		v = orig << 8
 	}
 	v &= ones(w)
-	return Mut{K: "set", Off: off, W: w, V: v, At: fmt.Sprintf("%s+%d", st.Kind, delta), VK: vk}
+	return Mut{K: "set", Off: off, W: w, V: v, At: fmt.Sprintf("%s+%d", st.Kind, delta), VK: vk}, idx
 }
 
 func genOffset(t *rapid.T, b *Base) int {
@@ -235,7 +278,7 @@ func genOffset(t *rapid.T, b *Base) int {
 		return 0
 	}
 	if len(b.Structs) > 0 && uni(t, "near", 0, 9) < 7 {
-		st, _ := pickStruct(t, b)
+		st, _, _ := pickStruct(t, b, -1)
 		span := 128
 		if st.Len > span {
 			span = st.Len
@@ -301,7 +344,8 @@ func (g *genEnv) gen(t *rapid.T) Case {
 		c := Case{Base: pickOf(t, "raw", []string{"raw/v0", "raw/v2", "raw/v3"}), Tail: genTail(t)}
 		if uni(t, "rawmut", 0, 3) == 0 {
 			b := newBase(c.Base, append(append([]byte(nil), g.reg.bases[c.Base].Data...), mustHex(c.Tail)...))
-			c.Muts = append(c.Muts, genField(t, b))
+			m, _ := genField(t, b, -1)
+			c.Muts = append(c.Muts, m)
 		}
 		return c
 	}
@@ -312,9 +356,15 @@ func (g *genEnv) gen(t *rapid.T) Case {
 	if nm == 5 {
 		nm = uni(t, "nmuts2", 4, 6)
 	}
+	focus := nm > 1 && uni(t, "focus", 0, 1) == 1 // correlated corruptions: all field mutations in one neighbourhood
+	near := -1
 	for i := 0; i < nm; i++ {
 		if uni(t, "mk", 0, 99) < 65 {
-			c.Muts = append(c.Muts, genField(t, b))
+			m, idx := genField(t, b, near)
+			if focus && near < 0 {
+				near = idx
+			}
+			c.Muts = append(c.Muts, m)
 		} else {
 			c.Muts = append(c.Muts, genRandom(t, b))
 		}
